@@ -33,8 +33,10 @@ def main(tier):
                 "Static dependence shape of the sibling grid conversion routines (flow-sensitive reaching dependences over the CFG): "
                 "forward conversions rotate with the direct matrix a vector that depends on the mesh size and not on the origin, and add "
                 "the origin afterwards; inverse conversions rotate with the inverse matrix a vector that depends on the origin and not on "
-                "the mesh size, and divide by the mesh afterwards; the Rotation class keeps its two matrices in step. Integer rank "
-                "arithmetic, half-cell / eps constants, derived grids and point-to-cell assignment are NOT decided.")
+                "the mesh size, and divide by the mesh afterwards; the Rotation class keeps its two matrices in step; the integer index is a "
+                "floor; derived grids take their origin from the parent's conversion (result used, no axis shift of a rotated origin, no "
+                "per-direction scaling after rotation). Integer rank arithmetic, half-cell / eps constants, node counts of derived grids and "
+                "point-to-cell assignment are NOT decided.")
     units = [os.path.join(REPO, u) for u in UNITS]
     d = extract(units, "C16-" + tier)
     prog = Program().load_dir(d)
